@@ -258,7 +258,7 @@ class Interp(object):
         self.bind_params(fr, fi, args, kwargs, node)
         is_gen = _is_generator(fi)
         self.frames.append(fr)
-        self.emit('enter', node or fi.node, {'callee': fi})
+        self.emit('enter', node or fi.node, {'callee': fi, 'locals': dict(fr.locals)})
         try:
             try:
                 self.exec_block(fi.node.body)
